@@ -422,6 +422,19 @@ def run(ctx, rep):
                    f'{w_!r} is accepted' if verdict else (f'the finite value {w_!r} lies inside [{lo}, {hi}] and is rejected by TryFrom<f64>'
                                                           if verdict is False else f'outcome for {w_!r} not constant ({sorted(outs)}, {odd[:2]})'),
                    where=lib.bodies[tf_of[ty]].span)
+            # ... and what is stored is the value given, bit for bit (no folding of an end point onto another representation)
+            if verdict:
+                import struct as _st
+                stored = [x for st_ in lv for c, v in ite_leaves(st_.ret) if v[0] == 'enum' and v[2] == 'Ok'
+                          for x in subterms(v) if x and x[0] == 'c' and x[1] == 'f64' and isinstance(x[2], float)]
+                if len(stored) == 1:
+                    # (the interpreter's constants do not tell -0.0 from 0.0: the zeros are compared by value)
+                    same = (stored[0][2] == w_) if w_ == 0.0 else _st.pack('<d', stored[0][2]) == _st.pack('<d', w_)
+                    rep.ob('R18.9', f'witness-stored:{last_seg(ty)}:{w_!r}', same,
+                           f'{w_!r} is stored as given' if same else f'the accepted value {w_!r} is stored as {stored[0][2]!r}: it does not read back as the value given',
+                           where=lib.bodies[tf_of[ty]].span)
+                else:
+                    rep.ob('R18.9', f'witness-stored:{last_seg(ty)}:{w_!r}', None, f'{len(stored)} f64 constants in the accepted value')
     rep.extra['numeric_witnesses'] = n_v
     # R18.8 what is handed to str::parse is the input text itself: a prefix stripped, a trim, a replacement before parsing changes the
     # set of accepted spellings (`"+-5"`, `" 5"`), whatever the helper does - decided on the argument term alone, so it does not
